@@ -141,11 +141,11 @@ prop('C12', src='props/c12_crypt.cpp',
 prop('C08', src='props/c08_prefix.cpp',
      plan={'quick': [{'variant': 'asan', 'workers': 16}], 'thorough': [{'variant': 'asan', 'workers': 16}, {'variant': 'rel', 'workers': 16}]},
      exhaustive=True,
-     rule='(i) exhaustive per word: every registered language x every word of the library\'s own index table (every 8th in the two Chinese lists in quick) x every prefix length 1..len x every subset of combining marks kept x NFD/NFC form, plus negative variants (prefix or word + a letter it does not continue with), each placed at word 2 of a valid library phrase through the coin XOR; '
+     rule='(i) exhaustive per word: every registered language x every word of the library\'s own index table (every 8th in the two Chinese lists in quick) x every prefix length 1..len x every subset of combining marks kept x NFD/NFC form, plus negative variants (prefix or word + a letter it does not continue with; word, 4-letter prefix with an extra combining mark inserted or appended, in NFD and NFC; in the languages that are not accent-blind also word/prefix with a foreign non-ASCII character), each placed at word 2 of a valid library phrase through the coin XOR; '
           '(ii) rapidcheck phrases with all 16 tokens independently varied in permitted ways (prefix >= 4 letters, accents kept per subset, NFC/NFD, ideographic separator for Japanese). '
           'Oracle = index-free reference matcher from the property text: A = {w : t equals w, or t is a prefix of w with >= 4 letters} (letters compared accent-blind in es/fr, exact match in ja/ko/zh); A = {own word} => OK and same seed, A empty => LANG, A = {other word} => same outcome as that word typed in full. '
           'Non-trivial = token differs from the full NFKD word; distinct = (language, token, word).',
-     required_classes={'any': ['rule:same-word', 'rule:no-word', 'rule:other-word', 'class:prefix>=4-last-letter-keeps-accent', 'class:prefix>=4', 'class:prefix<4', 'class:negative-suffix', 'class:composed-form-differs']},
+     required_classes={'any': ['rule:same-word', 'rule:no-word', 'rule:other-word', 'class:prefix>=4-last-letter-keeps-accent', 'class:prefix>=4', 'class:prefix<4', 'class:negative-suffix', 'class:composed-form-differs', 'class:decorated-with-combining-mark', 'class:decorated-with-foreign-character']},
      technique='exhaustive enumeration of token variants per word + property-based testing of mixed phrases (rapidcheck), against an index-free reference matcher',
      level_text='Every word of every list is enumerated with all prefix lengths, accent subsets and both normalisation forms against a reference matcher written from the property text; mixtures over 16 positions are sampled. Exploration with an exhaustive single-token core.')
 
